@@ -105,7 +105,7 @@ def _type_safe_is_in(a, b):
             raise TypeError(f"can't check for an {type_a} in a set of {type_b}'s")
     if hasattr(a, "isin") and hasattr(getattr(a, "dtype", None), "na_value"):
         # a nullable (masked) column: numpy can not compare its missing entries, which are in no set
-        return numpy.asarray(a.isin(b), dtype=bool)
+        return numpy.asarray(a.isin(b), dtype=bool) & numpy.asarray(a.notna(), dtype=bool)
     return numpy.isin(a, b)
 
 
@@ -142,21 +142,20 @@ def _true_positions(cond):
     return cond
 
 
-def _none_for_missing(res):
+def _plain_branch(x):
     """
-    None is the missing value of an object array: a nullable branch of where / if_else leaves <NA> entries,
-    which have no truth value and can not be compared.
+    A branch of where / if_else with None for its missing entries, when it is a nullable (masked) column:
+    numpy.where would copy <NA> entries, which have no truth value and can not be compared.
     """
-    if (res.dtype == object) and (res.ndim == 1):
-        for i, v in enumerate(res):
-            if (v is not None) and (not isinstance(v, (bool, str))):
-                try:
-                    missing = bool(v != v)  # nan, NaT
-                except TypeError:
-                    missing = True  # <NA> compares to <NA>
-                if missing:
-                    res[i] = None
-    return res
+    na_value = getattr(getattr(x, "dtype", None), "na_value", None)
+    if (na_value is not None) and hasattr(x, "to_numpy"):
+        try:
+            bool(na_value != na_value)
+        except TypeError:
+            # <NA> is this column's missing value
+            if x.isna().any():
+                return x.to_numpy(dtype=object, na_value=None)
+    return x
 
 
 def _where_expr(*args):
@@ -167,7 +166,7 @@ def _where_expr(*args):
     cond = args[0]
     a = args[1]
     b = args[2]
-    return _none_for_missing(numpy.where(_true_positions(cond), a, b))
+    return numpy.where(_true_positions(cond), _plain_branch(a), _plain_branch(b))
 
 
 # base class for Pandas-like API realization
@@ -360,7 +359,7 @@ class PandasModelBase(
         cond = args[0]
         a = args[1]
         b = args[2]
-        res = _none_for_missing(numpy.where(_true_positions(cond), a, b))
+        res = numpy.where(_true_positions(cond), _plain_branch(a), _plain_branch(b))
         bad_posns = self.bad_column_positions(cond)
         if numpy.any(bad_posns):
             # make room for a missing value whatever the type of the branches
